@@ -128,6 +128,9 @@ impl WriteSource for pr::ExprKind {
 
             Range(range) => {
                 let mut r = String::new();
+
+                // a bound is not an operand of the binary operator around the range
+                opt.binary_position = super::Position::Unspecified;
                 if let Some(start) = &range.start {
                     let start = write_within(start.as_ref(), self, opt.clone())?;
                     r += opt.consume(&start)?;
